@@ -244,6 +244,30 @@ def run(tier, seed):
             rep.violation('pyproject_toml: the checked dependencies differ from the reference reading of the document (outside every known class)',
                           {'format': d.fmt, 'document': d.text, 'checked': outs[pidx[k]]['out']['pkgs']})
     rep.cov['streams']['pyproject_reference'] = {'documents': len(pterms), 'equal': len(pterms) - len(pbad), 'inside_known_class': pcount.get(7, 0)}
+    # ... and for the YAML manifests (pnpm-workspace.yaml, workflows / composite actions)
+    for yfmt, yor, ytag in (('pnpm_workspace', 'pnpm_oracle', 'pnpm_reference'), ('github_actions', 'gha_oracle', 'gha_reference')):
+        yterms, yidx = [], []
+        for i, (d, o) in enumerate(zip(docs, outs)):
+            if d.fmt == yfmt and isinstance(o['out']['pkgs'], list) and o['out']['cst'] is not None:
+                impl = C.g_list([C.g_pair(C.g_bytes(p['name']), C.g_bytes(p['hash'] or p['version'])) for p in o['out']['pkgs']])
+                exp = C.g_list([C.g_pair(C.g_bytes(x['name']), C.g_bytes(x['hash'] or x['spec'])) for x in d.declared])
+                yterms.append(f"({C.g_bytes(d.text)}, {P.g_node(o['out']['cst'])}, {impl}, {exp})")
+                yidx.append(i)
+        ybad, yerrs = C.coq_eval_verdicts(PID, ytag, 'From Coq Require Import ZArith.\nFrom VL Require Import Lib.Bytes Lib.Cst Run.ManifestOracle.\n',
+                                          'bytes * node * list (bytes * bytes) * list (bytes * bytes)', yterms, yor)
+        for e in yerrs:
+            rep.broke(f'reference reading (Spec.YamlDoc, {yfmt}) evaluation failed', e)
+        ycount = collections.Counter(ybad.values())
+        for k, v in ybad.items():
+            d = docs[yidx[k]]
+            if v == 4:
+                rep.broke(f'a tree-sitter-yaml tree of a generated {yfmt} document does not denote a YAML value (CST contract)', {'document': d.text})
+            elif v == 5:
+                rep.broke(f'reference reading of a generated {yfmt} document differs from the list it was rendered from', {'document': d.text, 'declared': [(x['name'], x['hash'] or x['spec']) for x in d.declared]})
+            elif v == 6 and not any(what.startswith(d.fmt) for what, _, _ in rep.violations):
+                rep.violation(f'{yfmt}: the checked dependencies differ from the reference reading of the document (outside every known class)',
+                              {'format': d.fmt, 'document': d.text, 'checked': outs[yidx[k]]['out']['pkgs']})
+        rep.cov['streams'][ytag] = {'documents': len(yterms), 'equal': len(yterms) - len(ybad), 'inside_known_class': ycount.get(7, 0), 'outside_documented_shape': ycount.get(8, 0)}
     # go.mod: the generator's line list (reference grammar) against its rendering, the declared list and the implementation
     gterms, gidx = [], []
     for i, (d, o) in enumerate(zip(docs, outs)):
